@@ -12,7 +12,7 @@ from harness.creators import SHAPES, BLOCK
 import refconc
 
 PROPERTY = "C02"
-MODULES = ["torrent", "hasher", "utils", "mixins"]
+MODULES = ["torrent", "hasher", "utils", "mixins", "cli", "commands"]
 ASSUMPTIONS = [
     "A-hash model (injective, description-valued sha1/sha256); pass verdicts need no assumption on contents",
     "piece length is a configuration ({16,32,64} KiB; +128 KiB thorough) because P/16KiB drives concrete loop bounds; "
@@ -49,6 +49,10 @@ def jobs(tier):
     # a second creation in the same process (class / module level state must not leak into the second metafile)
     for first, second in (("2c", "2c"), ("2a", "2a"), ("3c", "2a"), ("2c", "3a"), ("3a", "3c")) if not q else (("2c", "2c"), ("3a", "2a"), ("2a", "3c")):
         out.append(("tree-second.%s-then-%s" % (first, second), "job_tree_second", dict(first=first, second=second, P=16384)))
+    from harness import matrix
+    for i, row in matrix.rows(tier):
+        for which in (("2a", "2c", "3a", "3c") if not q else (("2a", "3c") if i % 2 else ("2c", "3a"))):
+            out.append(("matrix.%s.%s" % (which, matrix.label(i, row)), "job_matrix", dict(which=which, row=row)))
     for shp in cr.scheme_shapes(["flat2", "nested3"], tier):
         for which in ("2a", "2c"):
             out.append(("tree.%s.%s.P16384" % (which, shp), "job_tree", dict(which=which, shape=shp, P=16384, K=1 if shp.startswith("nested3") else 2, order="reversed")))
@@ -156,6 +160,12 @@ def job_hasher_seq(E, hasher, P1, P2, K, _mutants=None):
         E.check(layer is not None and layer == rlayer, "C02.hasher-seq.layer")
 
 
+def job_matrix(E, which, row, _mutants=None):
+    from harness import matrix
+    matrix.run(E, which, row, lambda e, meta, sizes, Pn, shape: orc.oracle_v2(e, meta, sizes, Pn, shape, "C02.matrix"),
+               "C02.matrix", _mutants=_mutants)
+
+
 def job_tree_second(E, first, second, P, _mutants=None):
     """Two creations in one process over two different trees: the second metafile must describe the second tree only."""
     fs = AFS(order="reversed")
@@ -200,6 +210,13 @@ def job_tree(E, which, shape, P, K, order, _mutants=None):
 # ------------------------------------------------------------------ concrete
 
 def replay(params, model, notes, workdir, seed):
+    if "row" in params:
+        from harness import matrix
+        row = params["row"]
+        meta, data, Pn = matrix.replay(params["which"], row, model, workdir, seed)
+        if isinstance(meta, BaseException):
+            return ["C02.matrix.no-exception: %s: %s" % (type(meta).__name__, meta)]
+        return ["C02.matrix." + b for b in cr.conc_v2(meta, data, Pn, row["tree"] == "single")]
     if "P1" in params:
         P1, P2, hasher = params["P1"], params["P2"], params["hasher"]
         s0, s1 = int(model["s0"]), int(model["s1"])
